@@ -247,6 +247,8 @@ def structure_tags(case, to):
         tie = tie or bool(pos & neg)
     if tie:
         tags.append("tie_pos_neg")
+    if case.get("mode") in ("adjacent", "subnormal"):
+        tags.append("adjacent_float_scores")
     interior = vertex = pign = flip_used = False
     try:
         for b in to.interpolated_thresholder_.interpolation_dict.values():
@@ -288,6 +290,13 @@ def has_vertical(points):
     return False
 
 
+def _ulps(base, k):
+    v = float(base)
+    for _ in range(k):
+        v = float(np.nextafter(v, np.inf))
+    return v
+
+
 # ---- strategies ----------------------------------------------------------------------------------------
 
 _SCORES = {
@@ -301,6 +310,10 @@ _SCORES = {
     # exist, so every cut between them is a legitimate thresholding
     "near": st.tuples(st.sampled_from([0.0, 0.5, 1.0]), st.integers(0, 3)).map(lambda t: t[0] + t[1] * 1e-7),
     "small_ints": st.integers(0, 3).map(float),
+    # neighbouring floating point numbers (0.3 and 0.1 + 0.2 are such a pair): the midpoint of two levels rounds to one
+    # of them, so a cut between them exists only as '> lower' / '< upper'; also subnormal levels k * 5e-324
+    "adjacent": st.tuples(st.sampled_from([0.3, 1.0, 0.5, 100.0, 0.1]), st.integers(0, 3)).map(lambda t: _ulps(t[0], t[1])),
+    "subnormal": st.integers(0, 4).map(lambda k: k * 5e-324),
     "near_large": st.tuples(st.sampled_from([1000.0, 1000.5]), st.integers(0, 3)).map(lambda t: t[0] + t[1] * 1e-6),
 }
 
